@@ -224,3 +224,76 @@ Proof.
   - induction s as [|c t IH]; intros H; [reflexivity|].
     cbn [forallb] in H. apply andb_true_iff in H. destruct H as [Hc Ht]. cbn [words_aux]. rewrite Hc. apply IH. exact Ht.
 Qed.
+
+(* ---- the same invariance for any per-line normaliser that ignores outer white space (norm_line, strip) ------- *)
+Section line_normaliser.
+  Variable N : str -> str.
+  Hypothesis N_cons : forall w s, is_space w = true -> N (w :: s) = N s.
+  Hypothesis N_snoc : forall w s, is_space w = true -> N (s ++ [w]) = N s.
+  Hypothesis N_nil : N [] = [].
+
+  Definition nlines (ls : list str) : list str := filter nonempty (map N ls).
+
+  Lemma nlines_cons : forall l ls, nlines (l :: ls) = (if nonempty (N l) then [N l] else []) ++ nlines ls.
+  Proof. intros. unfold nlines. cbn [map filter]. destruct (nonempty (N l)); reflexivity. Qed.
+  Lemma nlines_app : forall a b, nlines (a ++ b) = nlines a ++ nlines b.
+  Proof. intros. unfold nlines. rewrite map_app, filter_app. reflexivity. Qed.
+
+  Lemma nlines_map_last : forall w ls, is_space w = true -> nlines (map_last (fun l => l ++ [w]) ls) = nlines ls.
+  Proof.
+    intros w ls H. induction ls as [|a ls IH]; [reflexivity|]. destruct ls as [|b ls'].
+    - cbn [map_last]. rewrite !nlines_cons, N_snoc by exact H. reflexivity.
+    - change (map_last (fun l => l ++ [w]) (a :: b :: ls')) with (a :: map_last (fun l => l ++ [w]) (b :: ls')).
+      rewrite (nlines_cons a (map_last (fun l => l ++ [w]) (b :: ls'))), (nlines_cons a (b :: ls')), IH. reflexivity.
+  Qed.
+
+  Lemma nlines_split_cons_space : forall sep w s, is_space w = true -> nlines (split_ch sep (w :: s)) = nlines (split_ch sep s).
+  Proof.
+    intros sep w s H. destruct (Z.eqb_spec w sep) as [->|Hw].
+    - rewrite split_ch_cons_sep, nlines_cons, N_nil. reflexivity.
+    - rewrite split_ch_cons_other by exact Hw. pose proof (split_ch_nonnil sep s).
+      destruct (split_ch sep s) as [|l0 rest]; [congruence|]. rewrite !nlines_cons, N_cons by exact H. reflexivity.
+  Qed.
+  Lemma nlines_split_snoc_space : forall sep w s, is_space w = true -> nlines (split_ch sep (s ++ [w])) = nlines (split_ch sep s).
+  Proof.
+    intros sep w s H. destruct (Z.eqb_spec w sep) as [->|Hw].
+    - rewrite split_ch_snoc_sep, nlines_app. unfold nlines at 2. cbn [map filter]. rewrite N_nil. cbn. rewrite app_nil_r. reflexivity.
+    - rewrite split_ch_snoc_other by exact Hw. apply nlines_map_last. exact H.
+  Qed.
+  Lemma nlines_split_strip : forall sep s, nlines (split_ch sep (strip s)) = nlines (split_ch sep s).
+  Proof.
+    intros sep s. unfold strip, strip_by. fold (lstrip s). fold (rstrip (lstrip s)).
+    assert (L : forall x, nlines (split_ch sep (lstrip x)) = nlines (split_ch sep x)).
+    { unfold lstrip. induction x as [|c t IH]; [reflexivity|]. cbn [lstrip_by]. destruct (is_space c) eqn:E; [|reflexivity].
+      rewrite IH. symmetry. apply nlines_split_cons_space. exact E. }
+    assert (R : forall x, nlines (split_ch sep (rstrip x)) = nlines (split_ch sep x)).
+    { unfold rstrip. induction x as [|w x IH] using rev_ind; [reflexivity|]. rewrite rstrip_by_snoc.
+      destruct (is_space w) eqn:E; [|reflexivity]. rewrite IH. symmetry. apply nlines_split_snoc_space. exact E. }
+    rewrite R, L. reflexivity.
+  Qed.
+End line_normaliser.
+
+(* strip is such a normaliser *)
+Lemma strip_cons_space : forall w s, is_space w = true -> strip (w :: s) = strip s.
+Proof. intros w s H. unfold strip, strip_by. cbn [lstrip_by]. rewrite H. reflexivity. Qed.
+
+Lemma lstrip_by_snoc_space : forall f s w, f w = true ->
+  lstrip_by f (s ++ [w]) = match lstrip_by f s with [] => [] | l => l ++ [w] end.
+Proof.
+  intros f s w H. induction s as [|c s IH].
+  - cbn [app lstrip_by]. rewrite H. reflexivity.
+  - cbn [app lstrip_by]. destruct (f c); [exact IH|reflexivity].
+Qed.
+
+Lemma strip_snoc_space : forall w s, is_space w = true -> strip (s ++ [w]) = strip s.
+Proof.
+  intros w s H. unfold strip, strip_by. rewrite lstrip_by_snoc_space by exact H.
+  destruct (lstrip_by is_space s) as [|c l] eqn:E; [reflexivity|].
+  change (rstrip_by is_space ((c :: l) ++ [w])) with (rstrip_by is_space ((c :: l) ++ [w])). rewrite rstrip_by_snoc, H. reflexivity.
+Qed.
+
+Lemma trim_lines_nlines : forall ls, trim_lines ls = nlines strip ls.
+Proof. reflexivity. Qed.
+
+Lemma trim_lines_split_strip : forall sep s, trim_lines (split_ch sep (strip s)) = trim_lines (split_ch sep s).
+Proof. intros. rewrite !trim_lines_nlines. apply (nlines_split_strip strip strip_cons_space strip_snoc_space eq_refl). Qed.
